@@ -1,8 +1,12 @@
+import re
 from collections.abc import Iterable
 
 from formulaic.utils.code import format_expr, sanitize_variable_names
 
 from ..types.token import Token
+
+
+STRING_LITERAL = r"""'(?:[^'\\]|\\.)*'|"(?:[^"\\]|\\.)*\""""
 
 
 def sanitize_tokens(tokens: Iterable[Token]) -> Iterable[Token]:
@@ -33,5 +37,12 @@ def sanitize_python_code(expr: str) -> str:
     )
     while aliases:
         alias, orig = aliases.popitem()
-        expr = expr.replace(alias, f"`{orig}`")
+        # Replace whole identifiers only (quoted names that are valid
+        # identifiers are their own alias and may occur inside other names),
+        # and leave string literals alone.
+        expr = re.sub(
+            rf"(?P<string>{STRING_LITERAL})|(?<![\w.]){re.escape(alias)}(?!\w)",
+            lambda match, orig=orig: match.group("string") or f"`{orig}`",
+            expr,
+        )
     return expr
